@@ -64,7 +64,7 @@ impl Part for WirePart {
         "1..2 shards of one primary (+ optional replica), 0..3 mirrors attached to generated (shard, server index) pairs, each mirror in one of {up, accept-and-close, dead port, refusing authentication, hanging at start-up, hanging at the first query, slow, closing on the first message, answering with errors}; 1..2 clients run 1..3 generated transactions (simple, multi-statement, blocks, extended batches, COPY IN/OUT) on a selected shard. Oracles: every request is answered with the client's own rows within 600 ms plus the statement's own scripted delay (one client pause of 520 ms lets the mirror pool's 400 ms connect timeout elapse) (mirror faults last the whole case, so any waiting on a mirror shows); the byte stream each mirror session received splits into whole units (runs of messages ending in Query/Sync/CopyDone/CopyFail, single CopyData) that form an in-order subsequence of the units one session of the mirrored server received, byte-exact (a truncated last unit is tolerated only on a session the mirror itself broke). Non-trivial = a mirror that is not plainly up, or a mirror configured on only one of two shards".into()
     }
     fn cases(&self, tier: Tier) -> u64 {
-        tier.pick(200, 6_000)
+        tier.pick(800, 12_000)
     }
     fn strategy(&self, _tier: Tier) -> BoxedStrategy<Case> {
         let mode = prop_oneof![
